@@ -41,4 +41,9 @@ CHECKS = {
   "text": "Generated search over models x parameters x mass points (about 2000 cases quick, 50000 thorough). Exploration level; continuous domain sampled, model list and L enumerated by the strategy.",
   "note": "Trusted: harness re-implementation of each docstring formula; reverse-Bessel reference for barrier factors. Known finding: BWR_LS default fix_bug1=False (recorded, see known_findings.json). Exact zeros of the continued barrier polynomial at q^2<0 are outside the asserted domain.",
  },
+ "C11": {
+  "technique": "property-based testing: Hypothesis-drawn four-vectors/velocities (round-trip, invariants, matrix-vs-vector boost against a numpy reference); enumerated decay-tree shapes for 3-5 finals with drawn orientation/masses/angles for build->extract round-trips plus independent physical validity of the built momenta; Dalitz round-trip from constructed physical events",
+  "text": "Generated search (about 6500 cases quick, 2.5e5 thorough) with edge classes (|v| up to 1-1e-6, epsilon branch, massless finals, decaying second daughter). Exploration level.",
+  "note": "Trusted: numpy boosts/masses/helicity cosine in vlib/kin.py. Tolerances scale with gamma^2; phi compared as exp(i phi); exactly collinear Dalitz points (region boundary) not asserted.",
+ },
 }
